@@ -355,7 +355,7 @@ pub fn run(ctx: &Ctx) -> HResult<()> {
 	let ev = &ctx.ev;
 	ev.rule("fork trees of 6..20 valid blocks (2..4 branches; SKIP_POW with arbitrary per-block difficulty increments incl. ties, or real PoW) generated by proptest; all headers delivered first (singly or in path chunks), then bodies in 3..4 generated permutations with duplicates and children-before-parents; after every delivery the head is compared with the max-work block among blocks whose ancestors were all delivered, head moves checked for strict work increase via the adapter's acceptance events, and at quiescence head/roots/unspent scan compared across permutations and against the winning chain applied alone; non-trivial = an orphan resolved later AND a losing fork accepted before the winner; distinct by (tree shape, unique max, PoW mode, orphan count)");
 	ev.assume("headers known first (statement precondition); orphan pool capacity (200) never exceeded by ≤20-block worlds");
-	let cases = ctx.n(320, 6000);
+	let cases = ctx.n(640, 6000);
 	let mb = if ctx.quick() { 14 } else { 20 };
 	let _ = mb;
 	if let Some((case, f)) = pbt_proc(ctx, "world", cases, 16) {
